@@ -134,8 +134,13 @@ def job(arg):
                 # close_enough() treats logicals as 1/0: a logical stored where a
                 # number within the tolerance is computed is not "altered by more
                 # than the tolerance" (DESIGN 5: 1<->TRUE family, not judged)
-                altered = not (isinstance(want_calc, int) and isinstance(W.py_val(p_val), int)
-                               and abs(int(want_calc) - int(W.py_val(p_val))) <= (tol or 0))
+                pv_, wc_ = W.py_val(p_val), want_calc
+                if isinstance(wc_, int) and isinstance(pv_, int):
+                    diff = abs(int(wc_) - int(pv_))
+                    # tolerance None means "relatively close" (1e-5) in close_enough()
+                    altered = diff > tol if tol else diff > 1e-5 * max(abs(int(wc_)), abs(int(pv_)))
+                else:
+                    altered = True
                 if p_cell in reach and p_cell not in unevaluable and altered:
                     mm = mism.get(p_cell)
                     if mm is None:
@@ -177,11 +182,11 @@ def job(arg):
 def run(tier, seed):
     v = Verdict(PID, tier, seed)
     if tier == 'quick':
-        jobs = [('chain', seed, 3, [[], ['B1']]), ('nested', seed, 3, [[], ['B2']]),
-                ('range', seed, 2, [[]]), ('cse', seed, 2, [[]])]
+        jobs = [('chain', seed, 3, [[], ['B1']]), ('nested', seed, 3, [[], ['B2'], ['C1']]),
+                ('range', seed, 2, [[]]), ('cse', seed, 2, [[]]), ('big', seed, 2, [[], ['C1']])]
     else:
-        jobs = [(name, seed, 12, [[]] + [[f] for f in sorted(W.WORKBOOKS[name]['formulas'])[:2]])
-                for name in ('chain', 'nested', 'range', 'cse', 'grid', 'alias', 'trimex')]
+        jobs = [(name, seed, 12, [[]] + [[f] for f in sorted(W.WORKBOOKS[name]['formulas'])])
+                for name in ('chain', 'nested', 'range', 'cse', 'grid', 'alias', 'trimex', 'big')]
     results = parallel.run_jobs(job, jobs)
     for r in results:
         for t in r['tlc']:
